@@ -45,10 +45,12 @@ class RecipeError(Exception):
         self.recipe, self.reason = recipe, reason
 
 
-def weave(repo, out, write_lock=False):
+def weave(repo, out, write_lock=False, force_degraded=None):
     """weave; when the anchors of a contract recipe are gone on this tree, retry with that recipe degraded to
-    trusted contracts (W11) - as long as the committed lock file knows the recipe's contracts"""
-    degraded = {}
+    trusted contracts (W11) - as long as the committed lock file knows the recipe's contracts.
+    `force_degraded` {recipe: reason}: recipes the caller found unusable on this tree (the woven text of one of
+    their units does not compile / is outside Verus' subset)"""
+    degraded = dict(force_degraded or {})
     lock = json.load(open(LOCK)) if os.path.exists(LOCK) else {}
     while True:
         try:
@@ -79,6 +81,8 @@ def weave_once(repo, out, degraded, lock, write_lock):
                 rules.apply_fallback(ctx, W, name, lock[name], degraded[name])
             except (WeaveError, IndexError, KeyError, TypeError, AttributeError) as e:
                 raise WeaveError("%s; and the trusted-contract fallback of recipe %s failed too: %s" % (degraded[name], name, e))
+            for u in ctx.units.values():
+                u.setdefault("recipe", name)
             continue
         try:
             m.apply(ctx, W)
@@ -86,6 +90,9 @@ def weave_once(repo, out, degraded, lock, write_lock):
             raise RecipeError(name, str(e))
         except (IndexError, KeyError, TypeError, AttributeError) as e:
             raise RecipeError(name, "recipe %s: anchor lookup failed (%s: %s)" % (name, type(e).__name__, e))
+        finally:
+            for u in ctx.units.values():
+                u.setdefault("recipe", name)
     if write_lock and not degraded:
         by = {}
         for sp in ctx.specs:
